@@ -13,7 +13,7 @@ from .. import build, tlc, run, idb, cpplib
 
 BATCH = 200
 QUICK = ["Export_sections", "Export_kinds", "Export_nested", "Export_files", "Export_filetops", "Export_tops", "Export_tops2", "Export_cmds",
-         "Export_alias", "Export_aliasfile", "Export_aliasnest"]
+         "Export_alias", "Export_aliasfile", "Export_aliasnest", "Export_props"]
 THOROUGH = ["Export_sections"] + [c + "_t" for c in QUICK]
 
 
@@ -24,6 +24,15 @@ def classes_of(cs):
     cm = lib["cmd"]
     if cm["c"] == "ignoremember" and cs.cls[cm["k"] - 1]["members"][cm["i"] - 1]["k"] in ("data", "datap"):
         out.append("C04-ignoremember-data")
+    minrank = cs.RANK[lib["minvis"]]
+    for c, k in enumerate(cs.cls, 1):
+        for j, m in enumerate(k["members"], 1):
+            # MAKE_PROPERTY / MAKE_SEQ declared in a section that is not exported
+            if m["k"] in ("mprop", "mseq") and cs.RANK[cs.vis_at(c, j)] > minrank:
+                out.append("C04-property-visibility")
+            # an array data member whose element type is a protected / private nested class
+            if m["k"] == "dataa" and cs.RANK[cs.class_vis(m["rc"])] > 1:
+                out.append("C04-array-protected")
     # a parameter / return type named through an alias of a reference type
     def wraps(a):
         A = lib["aliases"][a - 1]
@@ -44,7 +53,7 @@ def gxx_check(work, b, batch):
     p = os.path.join(work, "tu.cxx")
     open(p, "w").write(tu)
     r = subprocess.run(["g++", "-std=c++17", "-fsyntax-only", "-w", "-D__published=public", "-D__begin_publish=",
-                        "-D__end_publish=", "-I.", "-Isub", "-Iinc", "-Isys", "tu.cxx"], cwd=work,
+                        "-D__end_publish=", "-D__make_property(...)=", "-D__make_seq(...)=", "-I.", "-Isub", "-Iinc", "-Isys", "tu.cxx"], cwd=work,
                        stdout=subprocess.PIPE, stderr=subprocess.PIPE, text=True)
     return r.returncode, r.stderr[:3000]
 
